@@ -10,11 +10,12 @@ WireMatchers(ms) == [k \in DOMAIN ms |-> [label |-> ms[k].label, op |-> ms[k].op
 RECURSIVE WirePred(_)
 WirePred(p) == CASE p.t = "m" -> [t |-> "m", label |-> p.label, op |-> p.op, val |-> p.val]
                  [] p.t \in {"num", "dur", "bytes"} -> [t |-> p.t, label |-> p.label, op |-> p.op, val |-> NormPair(p.val)]
+                 [] p.t = "ip" -> [t |-> "ip", label |-> p.label, op |-> p.op, val |-> p.val]
                  [] p.t = "paren" -> WirePred(p.a)                      \* parentheses carry no meaning of their own
                  [] p.t \in {"and", "or"} -> [t |-> p.t, a |-> WirePred(p.a), b |-> WirePred(p.b)]
 
 WireStage(st) ==
-  CASE st.t = "line" -> [t |-> "line", op |-> st.op, val |-> st.val]
+  CASE st.t = "line" -> [t |-> IF "ip" \in DOMAIN st /\ st.ip THEN "lineip" ELSE "line", op |-> st.op, val |-> st.val]
     [] st.t = "label" -> [t |-> "label", pred |-> WirePred(st.pred)]
     [] st.t = "json" -> [t |-> "json", labels |-> st.labels, exprs |-> [k \in DOMAIN st.exprs |-> <<st.exprs[k].label, PathText(st.exprs[k].path, TRUE)>>]]
     [] st.t = "logfmt" -> [t |-> "logfmt", labels |-> st.labels, exprs |-> [k \in DOMAIN st.lexprs |-> <<st.lexprs[k].label, st.lexprs[k].key>>]]
